@@ -1,11 +1,12 @@
 """C10 — surviving peers agree on the cut-off of a dropped player."""
 from . import families as F
 from .simprops import generic_run, sizes, sim_replay
+from .p_session import run_session_correspondence
 LABELS = {"C10", "C07", "C09", "C01", "C03", "PANIC"}
 def classify(prop, cls, gap, scen):
     # the recorded finding: a survivor holds >= 1 frame more of the dropped player than another survivor
     return "survivor_view_gap>=1" if gap >= 1 else cls
 def run(ctx):
-    generic_run(ctx, LABELS, [("death3", lambda: F.fam_death(ctx.rng, sizes(ctx, 300, 3000), tag="d3", three=True))], known_class=classify)
+    generic_run(ctx, LABELS, extra=run_session_correspondence, plan=[("death3", lambda: F.fam_death(ctx.rng, sizes(ctx, 300, 3000), tag="d3", three=True))], known_class=classify)
 def replay(ctx, path):
     return sim_replay(ctx, path, LABELS)
